@@ -183,7 +183,9 @@ def vertKrn (c : Config) (u sc : Points α) (sw krn : α) : α :=
 def vertPc (c : Config) (u sc : Points α) (pc : α) : α :=
   if c.leverett then pc * sc.leverett
   else if c.pcScaling then
-    (if ¬ (sc.maxPcnw < u.maxPcnw) ∧ ¬ (u.maxPcnw < sc.maxPcnw) then pc * 1 else pc * (sc.maxPcnw / u.maxPcnw))
+    -- alpha = 1 when scaled == unscaled maximum, or when the table has no capillary pressure (fix eae0e8979)
+    (if (¬ (sc.maxPcnw < u.maxPcnw) ∧ ¬ (u.maxPcnw < sc.maxPcnw)) ∨ (¬ (u.maxPcnw < 0) ∧ ¬ (0 < u.maxPcnw)) then pc * 1
+     else pc * (sc.maxPcnw / u.maxPcnw))
   else pc
 
 /-- `twoPhaseSatKrw`, `twoPhaseSatKrn`, `twoPhaseSatPcnw` of `EclEpsTwoPhaseLaw<PiecewiseLinear…>`. -/
